@@ -118,3 +118,46 @@ pub fn vx_words_count(val: &str) -> (r: usize) ensures r == words_count(val@) { 
 /// `s.replace(['\n', '\r'], to)`: every occurrence of either character
 #[verifier::external_body]
 pub fn vx_replace_any2(s: &String, a: char, b: char, to: &str) -> (r: String) ensures r@ == replace_any_spec(s@, a, b, to@) { unimplemented!() }
+// ---- indent
+pub uninterp spec fn kw_usize(k: Kwargs, name: Seq<char>) -> Result<Option<usize>, Error>;
+pub uninterp spec fn kw_bool(k: Kwargs, name: Seq<char>) -> Result<Option<bool>, Error>;
+#[verifier::external_body]
+pub fn vx_kw_usize(k: &Kwargs, name: &str) -> (r: TeraResult<Option<usize>>)
+    ensures r is Ok <==> kw_usize(*k, name@) is Ok, r is Ok ==> r->Ok_0 == kw_usize(*k, name@)->Ok_0
+{ unimplemented!() }
+#[verifier::external_body]
+pub fn vx_kw_bool(k: &Kwargs, name: &str) -> (r: TeraResult<Option<bool>>)
+    ensures r is Ok <==> kw_bool(*k, name@) is Ok, r is Ok ==> r->Ok_0 == kw_bool(*k, name@)->Ok_0
+{ unimplemented!() }
+#[verifier::external_body]
+pub fn vx_min_usize(a: usize, b: usize) -> (r: usize) ensures r == (if a <= b { a } else { b }) { unimplemented!() }
+/// `" ".repeat(n)`
+pub open spec fn spaces(n: int) -> Seq<char> { Seq::new(n as nat, |i: int| ' ') }
+/// `s.repeat(n)` for a one-character text
+#[verifier::external_body]
+pub fn vx_repeat_of(s: &str, n: usize) -> (r: String) ensures s@ == seq![' '] ==> r@ == spaces(n as int) { unimplemented!() }
+/// `str::lines()` (std): the lines without their terminators
+pub uninterp spec fn lines_spec(s: Seq<char>) -> Seq<Seq<char>>;
+#[verifier::external_body]
+pub struct VxLines<'a> { _p: core::marker::PhantomData<&'a ()> }
+impl<'a> VxLines<'a> {
+    pub uninterp spec fn view(&self) -> Seq<Seq<char>>;
+    #[verifier::external_body]
+    pub fn next(&mut self) -> (r: Option<&'a str>)
+        ensures old(self)@.len() == 0 ==> r is None && final(self)@ == old(self)@,
+            old(self)@.len() > 0 ==> r is Some && r->Some_0@ == old(self)@[0] && final(self)@ == old(self)@.skip(1)
+    { unimplemented!() }
+}
+#[verifier::external_body]
+pub fn vx_lines<'a>(s: &'a str) -> (r: VxLines<'a>) ensures r@ == lines_spec(s@) { unimplemented!() }
+#[verifier::external_body]
+pub fn vx_ends_with_char(s: &str, c: char) -> (r: bool) ensures r == (s@.len() > 0 && s@.last() == c) { unimplemented!() }
+/// the documented result for the first k lines: the first line gets the indent only when `first`; every later
+/// line starts on a new line and gets the indent unless it is empty and `blank` is off
+pub open spec fn indent_fold(l: Seq<Seq<char>>, k: int, ind: Seq<char>, first: bool, blank: bool) -> Seq<char>
+    decreases k
+{
+    if k <= 0 { Seq::empty() }
+    else if k == 1 { (if first { ind } else { Seq::empty() }) + l[0] }
+    else { indent_fold(l, k - 1, ind, first, blank) + seq!['\n'] + (if l[k - 1].len() > 0 || blank { ind } else { Seq::empty() }) + l[k - 1] }
+}
